@@ -298,7 +298,7 @@ theorem C10_missing_attribute_outcomes (n : Name) (a : List Attr) (rest : List X
       ∀ ex, methodLoop (fuel + 1) (.start n a :: rest) ex = .err .invalidRecord) ∧
     (localName n = sClass ∨ localName n = sSourcefile → hasNoKey a sName = true →
       ∀ cap pkg m, packageLoop cap pkg (fuel + 1) (.start n a :: rest) m = .err .invalidRecord) ∧
-    (hasNoKey a sSourcefilename = true → ∀ top, sourceFileOf a top = top ++ sDotJava) ∧
+    (hasNoKey a sSourcefilename = true → ∀ top, sourceFileOf a top = .ok (top ++ sDotJava)) ∧
     (∀ m : XMethod, m.body.filterMap MSeg.covered? = [] → m.abs.executed = false) :=
   ⟨fun hn ⟨nm, h1⟩ h2 cls fns => method_without_line cls n a nm rest fuel fns hn nd h1 h2,
    fun hn h1 cls fns => method_without_name cls n a rest fuel fns hn nd h1,
@@ -308,40 +308,28 @@ theorem C10_missing_attribute_outcomes (n : Name) (a : List Attr) (rest : List X
    fun h top => class_without_sourcefilename a top nd h,
    fun m h => method_without_counter m h⟩
 
-/-- What the code does with a `sourcefilename` it cannot read (`get_xml_attribute(..).unwrap_or(
-format!("{}.java", top_class))` swallows EVERY error of the look-up, not only "absent"): a bad
-entity, an attribute syntax error before it – and, in the real code, a value that is not valid UTF-8
-(an ISO-8859-1 report; decoding is outside the model) – select the fallback `<TopLevelClass>.java`.
-Finding C10-undecodable-sourcefilename-falls-back (harness `ties.encoding.latin1`). -/
-theorem C10_unreadable_sourcefilename_falls_back (a : List Attr) (top : Name) (k : ErrKind)
-    (h : getAttr sSourcefilename a = .error k) : sourceFileOf a top = top ++ sDotJava := by
-  unfold sourceFileOf; rw [h]
-
-/-- "a class whose `sourcefilename` cannot be read makes the report an error": the statement one
-would expect of a faithful reader (a wrong file name attributes the functions to another file) -/
-def C10_unreadable_sourcefilename_is_error_stmt : Prop :=
-  ∀ (pkg cls mth : List Attr) (fuel : Nat),
-    getAttr sSourcefilename cls = .error .parse →
-    parse [.start sPackage pkg, .start sClass cls, .empty sMethod mth, .end_ sClass, .end_ sPackage]
-      (fuel + 11) = .err .parse
-
-/-- … is FALSE of the code: `<package name="p"><class name="p/A" sourcefilename="&x;"><method
-name="m" line="1"/></class></package>` reports the function `A#m` on `p/A.java`. -/
-theorem C10_unreadable_sourcefilename_is_error_false :
-    ¬ C10_unreadable_sourcefilename_is_error_stmt := by
-  intro h
-  have := h [(sName, [112])] [(sName, [112, 47, 65]), (sSourcefilename, [38, 120, 59])]
-    [(sName, [109]), (sLine, [49])] 0 (by rfl)
-  revert this
-  decide +kernel
-
-/-- The provable part, under exactly the guard the witness violates: when the `sourcefilename`
-attribute is readable it is used, when it is absent (no attribute syntax error in the tag) the
-fallback is used. -/
-theorem C10_unreadable_sourcefilename_partial (a : List Attr) (top f : Name) :
-    (getAttr sSourcefilename a = .ok f → sourceFileOf a top = f)
-    ∧ (keysOk a = true → hasNoKey a sSourcefilename = true → sourceFileOf a top = top ++ sDotJava) :=
-  ⟨fun h => by unfold sourceFileOf; rw [h], fun nd h => class_without_sourcefilename a top nd h⟩
+/-- `sourcefilename` (since /repo 276971e; former finding C10-undecodable-sourcefilename-falls-back:
+`.unwrap_or(..)` swallowed every error of the look-up, so a class whose `sourcefilename` could not be
+read – a bad entity, an attribute syntax error before it, in the real code also a value that is not
+valid UTF-8 as in an ISO-8859-1 report – was silently filed under `<TopLevelClass>.java`):
+* a `<class>` whose `sourcefilename` is PRESENT BUT UNREADABLE (the look-up fails with anything but
+  "no such attribute") makes the reader return that error for the whole report, before the class
+  body is read;
+* the look-up fails with "no such attribute" (`InvalidRecord`) only when no attribute has that key,
+  and then – and only then – the fallback `<TopLevelClass>.java` is used;
+* a readable `sourcefilename` is used as it is. -/
+theorem C10_unreadable_sourcefilename_rejects_the_report (cap : Nat) (pkg n : Name) (a : List Attr)
+    (rest : List XmlEvent) (fuel : Nat) (m : List (Name × Cov)) (fq top f : Name) (k : ErrKind) :
+    (localName n = sClass → getAttr sName a = .ok fq → getAttr sSourcefilename a = .error k →
+      k ≠ .invalidRecord → packageLoop cap pkg (fuel + 1) (.start n a :: rest) m = .err k)
+    ∧ (getAttr sSourcefilename a = .error .invalidRecord →
+        (∀ x ∈ a, x.1 ≠ sSourcefilename) ∧ sourceFileOf a top = .ok (top ++ sDotJava))
+    ∧ (keysOk a = true → hasNoKey a sSourcefilename = true → sourceFileOf a top = .ok (top ++ sDotJava))
+    ∧ (getAttr sSourcefilename a = .ok f → sourceFileOf a top = .ok f) :=
+  ⟨fun hn h1 h2 hk => class_unreadable_sourcefilename cap pkg n a rest fuel m fq k hn h1 h2 hk,
+   fun h => ⟨getAttrAux_invalidRecord sSourcefilename a h, by unfold sourceFileOf; rw [h]⟩,
+   fun nd h => class_without_sourcefilename a top nd h,
+   fun h => by unfold sourceFileOf; rw [h]⟩
 
 /-- End of input inside a `<package>`, `<class>`, `<method>` or `<sourcefile>` element is
 `ParserError::Parse` (every nested loop has an `Eof` arm since 34e25d5). -/
@@ -452,7 +440,9 @@ example :
 /-- repeated attributes since /repo ae885a6 (before: `Err(Parse)` for each of these reports):
 `<package a="1" a="2" name="p" name="q">` is the package `p` (first `name`);
 `<line nr="1" ci="0" mb="0" cb="0" ci="5" nr="7"/>` is line 7 with count 1 (last `ci`, last `nr`);
-an attribute syntax error AFTER the wanted attribute of a `<package>` is never reached -/
+an attribute syntax error AFTER the wanted attribute of a `<package>` is never reached;
+`<class name="p/A" sourcefilename="&x;">` (unreadable: bad entity) rejects the report (since
+/repo 276971e; before, `A#m` was reported on `p/A.java`), without the attribute the fallback is used -/
 example :
     parse [.start sPackage [([97], [49]), ([97], [50]), (sName, [112]), (sName, [113])],
         .start sSourcefile [(sName, [65])],
@@ -460,6 +450,12 @@ example :
         .end_ sSourcefile, .end_ sPackage] 13
       = .ok [([112, 47, 65], { lines := [(7, 1)] })]
     ∧ parse [.start sPackage [(sName, [112]), ([], [])], .end_ sPackage] 5 = .ok []
+    ∧ parse [.start sPackage [(sName, [112])],
+        .start sClass [(sName, [112, 47, 65]), (sSourcefilename, [38, 120, 59])],
+        .empty sMethod [(sName, [109]), (sLine, [49])], .end_ sClass, .end_ sPackage] 11 = .err .parse
+    ∧ parse [.start sPackage [(sName, [112])], .start sClass [(sName, [112, 47, 65])],
+        .empty sMethod [(sName, [109]), (sLine, [49])], .end_ sClass, .end_ sPackage] 11
+      = .ok [([112, 47, 65, 46, 106, 97, 118, 97], { functions := [([65, 35, 109], ⟨1, false⟩)] })]
     ∧ getAttrWork sName [([97], [49]), ([97], [50]), (sName, [112]), (sName, [113])] = 3
     ∧ lineAttrsWork [(sNr, [49]), (sCi, [48]), (sMb, [48]), (sCb, [48]), (sCi, [53]), (sNr, [55])] = 6 := by
   decide +kernel
